@@ -83,20 +83,21 @@ for sid, (what, need) in sorted(needs.items()):
     shutil.copyfile(src + ('/patch.ported.diff' if ported else '/patch.diff'), dst + '/patch.diff')
     if ported:
         shutil.copyfile(src + '/patch.diff', dst + '/patch.original-at-pinned-commit.diff')
-    for d in glob.glob(src + '/**/zz_seed_demo_test.go', recursive=True):
+    for d in glob.glob(src + '/**/zz_seed_demo*_test.go', recursive=True):
         rel = os.path.relpath(d, src).replace('/', '__')
         shutil.copyfile(d, dst + '/' + rel + '.txt')  # .txt: not compiled as part of anything under /verif
     if os.path.exists(src + '/notes.md'):
         shutil.copyfile(src + '/notes.md', dst + '/notes.md')
     prop = sid.split('-')[0]
-    d = extra.get(sid) or det.get((sid, prop))
+    decided_by = {"C03-3": "C05", "C03-4": "C05"}.get(sid, prop)  # changes that need a faulty party are C05's subject
+    d = extra.get(sid) or det.get((sid, decided_by))
     meta = {
         "id": sid, "breaks_property": prop, "what": what, "needs_to_manifest": need,
         "written_by": "independent sub-agent given only the property text and a scratch worktree",
         "confirmed_in_scratch_worktree": conf.get(sid, "see DESIGN.md"),
         "confirmation_procedure": "tools/confirm_seed.sh: worktree of /repo HEAD; demo passes on pristine; patch applies and builds; demo fails with the patch; unedited suite passes with the patch",
         "ported_to_repaired_tree": ported,
-        "check_result": None if d is None else {"violations_reported": d[0], "detail": d[1], "command": "tools/try_seed.sh seeded/%s %s (quick tier, on a scratch worktree with the change applied)" % (sid, prop)},
+        "check_result": None if d is None else {"violations_reported": d[0], "detail": d[1], "command": "tools/try_seed.sh seeded/%s %s (quick tier, on a scratch worktree with the change applied)" % (sid, decided_by), "decided_by": decided_by},
     }
     json.dump(meta, open(dst + '/meta.json', 'w'), indent=1)
 print(len(os.listdir('/verif/seeded')), 'seeds imported')
